@@ -318,7 +318,7 @@ def main() -> int:  # noqa: C901, PLR0912, PLR0915
             print(f"HARNESS-ERROR: violation {key} did not reproduce from {path} in a fresh interpreter", flush=True)
             agg["errors"].append({"error": f"non-reproducible violation {key}", "replay": path})
     for e in agg["errors"][:5]:
-        print("HARNESS-ERROR:", e.get("error"), flush=True)
+        print("HARNESS-ERROR:", e.get("error"), "case:", json.dumps(e.get("case"), default=repr)[:600], flush=True)
         if e.get("traceback"):
             print(e["traceback"], flush=True)
     if agg["errors"] and rc == 0:
